@@ -169,7 +169,7 @@ pub open spec fn capped(t: Seq<core::ops::Range<u64>>) -> Seq<core::ops::Range<u
 
 /// t is well formed and denotes exactly old + {q}  ==>  capped(t) is a correct result
 pub proof fn lemma_single(q: u64)
-    requires q < 0x4000_0000_0000_0000 - 1,
+    requires q < 0x4000_0000_0000_0000,
     ensures forall|x: u64| #![trigger in_r(single(q), x)] in_r(single(q), x) <==> x == q,
 {
 }
@@ -193,7 +193,7 @@ pub proof fn lemma_added_from_exact(o: Seq<core::ops::Range<u64>>, t: Seq<core::
 }
 
 pub proof fn lemma_path_empty(o: Seq<core::ops::Range<u64>>, q: u64)
-    requires o.len() == 0, q < 0x4000_0000_0000_0000 - 1,
+    requires o.len() == 0, q < 0x4000_0000_0000_0000,
     ensures ack_added(o, o.push(single(q)), q),
 {
     let t = o.push(single(q));
@@ -214,7 +214,7 @@ pub proof fn lemma_path_contained(o: Seq<core::ops::Range<u64>>, q: u64, i: int)
 
 pub proof fn lemma_path_extend_left(o: Seq<core::ops::Range<u64>>, q: u64, i: int)
     requires
-        acks_wf(o), o.len() <= 64, 0 <= i < o.len(), q < 0x4000_0000_0000_0000 - 1,
+        acks_wf(o), o.len() <= 64, 0 <= i < o.len(), q < 0x4000_0000_0000_0000,
         forall|k: int| 0 <= k < i ==> (#[trigger] o[k]).end < q,
         o[i].start == q + 1,
     ensures ack_added(o, o.update(i, core::ops::Range { start: q, end: o[i].end }), q),
@@ -238,7 +238,7 @@ pub proof fn lemma_path_extend_left(o: Seq<core::ops::Range<u64>>, q: u64, i: in
 
 pub proof fn lemma_path_extend_right(o: Seq<core::ops::Range<u64>>, q: u64, i: int)
     requires
-        acks_wf(o), o.len() <= 64, 0 <= i < o.len(), q < 0x4000_0000_0000_0000 - 1,
+        acks_wf(o), o.len() <= 64, 0 <= i < o.len(), q < 0x4000_0000_0000_0000,
         o[i].end == q,
         i + 1 < o.len() ==> o[i + 1].start != q + 1,
     ensures ack_added(o, o.update(i, core::ops::Range { start: o[i].start, end: (q + 1) as u64 }), q),
@@ -263,7 +263,7 @@ pub proof fn lemma_path_extend_right(o: Seq<core::ops::Range<u64>>, q: u64, i: i
 
 pub proof fn lemma_path_merge(o: Seq<core::ops::Range<u64>>, q: u64, i: int)
     requires
-        acks_wf(o), o.len() <= 64, 0 <= i, i + 1 < o.len(), q < 0x4000_0000_0000_0000 - 1,
+        acks_wf(o), o.len() <= 64, 0 <= i, i + 1 < o.len(), q < 0x4000_0000_0000_0000,
         o[i].end == q, o[i + 1].start == q + 1,
     ensures ack_added(o, o.update(i, core::ops::Range { start: o[i].start, end: o[i + 1].end }).remove(i + 1), q),
 {
@@ -294,7 +294,7 @@ pub proof fn lemma_path_merge(o: Seq<core::ops::Range<u64>>, q: u64, i: int)
 
 pub proof fn lemma_path_insert(o: Seq<core::ops::Range<u64>>, q: u64, i: int)
     requires
-        acks_wf(o), o.len() <= 64, 0 <= i < o.len(), q < 0x4000_0000_0000_0000 - 1,
+        acks_wf(o), o.len() <= 64, 0 <= i < o.len(), q < 0x4000_0000_0000_0000,
         forall|k: int| 0 <= k < i ==> (#[trigger] o[k]).end < q,
         o[i].start > q + 1,
     ensures ack_added(o, capped(o.insert(i, single(q))), q),
@@ -321,7 +321,7 @@ pub proof fn lemma_path_insert(o: Seq<core::ops::Range<u64>>, q: u64, i: int)
 
 pub proof fn lemma_path_append(o: Seq<core::ops::Range<u64>>, q: u64)
     requires
-        acks_wf(o), o.len() <= 64, q < 0x4000_0000_0000_0000 - 1,
+        acks_wf(o), o.len() <= 64, q < 0x4000_0000_0000_0000,
         forall|k: int| 0 <= k < o.len() ==> (#[trigger] o[k]).end < q,
     ensures ack_added(o, capped(o.push(single(q))), q),
 {
